@@ -7,9 +7,9 @@ import (
 	"context"
 	"encoding/json"
 	"fmt"
-	"os"
 	"io"
 	"net/http"
+	"os"
 	"sort"
 	"strconv"
 	"strings"
